@@ -615,8 +615,58 @@ class Sym:
             return tot
         n = peval(self.n)
         if self.d is None:
-            return n
-        return n / peval(self.d)
+            r = n
+        else:
+            dd = peval(self.d)
+            r = n / dd if dd != 0 else complex("nan")
+        if r != r or abs(r) == float("inf"):
+            return self._evalf_decimal(env)
+        return r
+
+    def _evalf_decimal(self, env):
+        """high-precision fallback (80 digits) when double evaluation overflows / cancels to nan"""
+        from decimal import Decimal, getcontext
+        getcontext().prec = 80
+
+        def val(s):
+            v = sym_value(s, env)
+            if isinstance(v, complex):
+                if v.imag != 0:
+                    raise OverflowError("complex value in decimal evaluation")
+                v = v.real
+            info = T.syms[s]
+            if info.kind == "root":
+                return Decimal(info.data).sqrt()
+            return Decimal(repr(float(v)))
+
+        def peval(p):
+            re, im = Decimal(0), Decimal(0)
+            for m, c in p.items():
+                v = Decimal(c.numerator) / Decimal(c.denominator)
+                ipow = 0
+                for s, e in m:
+                    if s == I_ID:
+                        ipow += e
+                    else:
+                        v *= val(s) ** e
+                ipow %= 4
+                if ipow == 0:
+                    re += v
+                elif ipow == 1:
+                    im += v
+                elif ipow == 2:
+                    re -= v
+                else:
+                    im -= v
+            return re, im
+        nr, ni = peval(self.n)
+        if self.d is None:
+            return complex(float(nr), float(ni))
+        dr, di = peval(self.d)
+        den = dr * dr + di * di
+        if den == 0:
+            return complex("nan")
+        return complex(float((nr * dr + ni * di) / den), float((ni * dr - nr * di) / den))
 
     def subs_eval_exact(self, env):
         """exact value under env: symbol id -> Sym (constant field); defined symbols not supported"""
